@@ -444,6 +444,11 @@ def analyse(ctx, F, sfx):
                         ok_ = not wr_ and not calls_
         rep.check(r6, ok_, 'rpc:End-absorbing', 'the End arm of rpc_parse neither assigns the state nor calls a state-changing helper: %s' % ok_)
 
+        # the reviewed unwrap of generate() on the SYN / data arms rests on generate failing only for absent fields
+        from rules import silence
+        silence.check(ctx, r6, 'synackcookie::generate', silence.REASONS['synackcookie::generate'][1],
+                      'generate() fails only when an endpoint field is absent or the families differ (so its unwrap after the layers recorded the endpoints cannot fail)', silent='Err', loud='Ok')
+
     # R5 lock re-entry
     for cid in F.closures_of.get('layer_4::tcp::repl', []):
         c = F.cone([cid])
